@@ -40,7 +40,14 @@ pub fn parse(file: &str, args: &[&str]) -> Result<Value> {
         )
     })?;
 
-    let expanded_usages = expand_usages(extended_usages, args_with_normalized_options.len(), &opts);
+    // `expand_usages` returns a `HashSet`, whose iteration order changes from one run to the
+    // next: sort it so that the usage chosen when several of them match is always the same
+    // (descending, which prefers literal commands to positional placeholders).
+    let mut expanded_usages: Vec<String> =
+        expand_usages(extended_usages, args_with_normalized_options.len(), &opts)
+            .into_iter()
+            .collect();
+    expanded_usages.sort_by(|a, b| b.cmp(a));
     trace!("expanded usages: {expanded_usages:?}");
 
     let arg_kind_set = RegexSet::new([
